@@ -16,6 +16,7 @@ import (
 	dtlserrors "github.com/pion/dtls/v3/internal/errors"
 	dtlsflight "github.com/pion/dtls/v3/internal/flight"
 	dtlsstate "github.com/pion/dtls/v3/internal/state"
+	"github.com/pion/dtls/v3/internal/vtrace"
 	"github.com/pion/dtls/v3/pkg/protocol"
 	"github.com/pion/dtls/v3/pkg/protocol/alert"
 	"github.com/pion/dtls/v3/pkg/protocol/handshake"
@@ -480,6 +481,10 @@ func (p *postHandshake) handleKeyUpdate(
 	p.state.TrafficKeys.Install(nil, next)
 	p.state.SetRemoteEpoch(next.Epoch)
 	p.state.HandshakeRecvSequence++
+	if vtrace.Enabled {
+		vtrace.Emit(p.cfg, "ph.rxKeyUpdate", "client", p.state.IsClient, "epoch", int(epoch), "next", int(next.Epoch),
+			"req", message.RequestUpdate == handshake.KeyUpdateRequested, "secret", next.Secret, "prev", current.Secret)
+	}
 
 	return conn.HandleQueuedPackets(ctx)
 }
@@ -523,6 +528,9 @@ func (p *postHandshake) handleNewSessionTicket(
 	// nolint:godox
 
 	p.state.HandshakeRecvSequence++
+	if vtrace.Enabled {
+		vtrace.Emit(p.cfg, "ph.rxTicket", "client", p.state.IsClient)
+	}
 
 	return nil
 }
@@ -540,6 +548,10 @@ func (p *postHandshake) startNewSessionTicket(ctx context.Context, conn Conn, is
 	p.flights[flight.ID] = flight
 	p.registerTransmission(flight, result.TrackedRecords, true)
 	flight.NextRetransmit = time.Now().Add(flight.RetransmitInterval)
+	if vtrace.Enabled {
+		vtrace.Emit(p.cfg, "ph.start", "client", p.state.IsClient, "kind", "ticket",
+			"msgseq", int(flight.ID.MessageSequence), "epoch", int(flight.Epoch), "records", len(result.TrackedRecords))
+	}
 
 	return nil
 }
@@ -561,6 +573,11 @@ func (p *postHandshake) startKeyUpdate(
 	p.flights[flight.ID] = flight
 	p.registerTransmission(flight, result.TrackedRecords, true)
 	flight.NextRetransmit = time.Now().Add(flight.RetransmitInterval)
+	if vtrace.Enabled {
+		vtrace.Emit(p.cfg, "ph.start", "client", p.state.IsClient, "kind", "keyupdate",
+			"msgseq", int(flight.ID.MessageSequence), "epoch", int(flight.Epoch), "records", len(result.TrackedRecords),
+			"req", command.KeyUpdate.Request == handshake.KeyUpdateRequested, "user", command.Completion != nil)
+	}
 
 	return nil
 }
@@ -751,6 +768,10 @@ func (p *postHandshake) completePostHandshakeFlight(conn Conn, id postHandshakeF
 		delete(p.recordIndex, number)
 	}
 	delete(p.flights, id)
+	if vtrace.Enabled {
+		vtrace.Emit(p.cfg, "ph.acked", "client", p.state.IsClient, "category", int(id.Category),
+			"msgseq", int(id.MessageSequence), "keyupdate", flight.PendingWrite != nil, "err", completionErr != nil)
+	}
 	flight.Completion.complete(completionErr)
 
 	return completionErr
@@ -811,6 +832,10 @@ func (p *postHandshake) retransmitPostHandshakeFlight(
 		return err
 	}
 	p.registerTransmission(flight, result.TrackedRecords, false)
+	if vtrace.Enabled {
+		vtrace.Emit(p.cfg, "ph.retx", "client", p.state.IsClient, "msgseq", int(flight.ID.MessageSequence),
+			"interval", int64(flight.RetransmitInterval), "records", len(result.TrackedRecords))
+	}
 	if !disableRetransmitBackoff {
 		flight.RetransmitInterval *= 2
 		if flight.RetransmitInterval > 60*time.Second {
